@@ -113,7 +113,7 @@ Proof.
   - destruct st; try discriminate. intros [= <-] e. reflexivity.
 Qed.
 
-Lemma terms_as_vars_in ts : forall acc tv, terms_as_vars ts acc = Some tv ->
+Lemma terms_as_vars_in ts : forall acc tv, terms_as_vars ts acc = inl tv ->
   (forall t, In t ts -> exists v, gterm_to_var t = Some v) /\
   (forall v, In v tv -> In v acc \/ exists t, In t ts /\ gterm_to_var t = Some v).
 Proof.
@@ -139,7 +139,7 @@ Lemma definition_shape f taken p w : definition f taken = Ok (p, w) ->
   exists vs q ts rhs tv,
     f = FQ QForall vs (FBin CIff (FAtomic (AAtom q ts)) rhs) /\ p = mkpred q (List.length ts) /\
     NoDup vs /\
-    terms_as_vars ts [] = Some tv /\ (forall v, In v vs <-> In v tv) /\
+    terms_as_vars ts [] = inl tv /\ (forall v, In v vs <-> In v tv) /\
     ~ In p taken /\ (forall v, In v (free_variables rhs) -> In v vs) /\
     (forall r, In r (predicates rhs) -> In r taken).
 Proof.
@@ -148,11 +148,11 @@ Proof.
   destruct body as [|?|c lhs rhs|]; try discriminate. destruct c; try discriminate.
   destruct lhs as [a|?|?|]; try discriminate. destruct a as [| |q ts|]; try discriminate.
   destruct (Nat.ltb (List.length (iset_of_list var_dec vs)) (List.length vs)) eqn:Elen; [discriminate|].
-  destruct (terms_as_vars ts []) as [tv|] eqn:Etv; [|discriminate].
+  destruct (terms_as_vars ts []) as [tv|bad] eqn:Etv; [|discriminate].
   destruct (set_eqb var_dec (iset_of_list var_dec vs) tv) eqn:Eset; cbn [negb] in H; [|discriminate].
   destruct (memb_spec pred_dec (mkpred q (List.length ts)) taken) as [|Hfresh]; [discriminate|].
   destruct (subsetb var_dec (free_variables rhs) (iset_of_list var_dec vs)) eqn:Efv; cbn [negb] in H; [|discriminate].
-  destruct (subsetb pred_dec (predicates rhs) taken) eqn:Epr; cbn [negb] in H; [|discriminate].
+  destruct (find (fun q0 => negb (memb pred_dec q0 taken)) (predicates rhs)) as [q0|] eqn:Epr; [discriminate|].
   injection H as <- _. exists vs, q, ts, rhs, tv. repeat split; auto.
   - (* no duplicates: the duplicate-free list is not shorter *)
     apply Nat.ltb_ge in Elen.
@@ -162,7 +162,8 @@ Proof.
   - intros Hv. apply (proj1 (set_eqb_spec var_dec _ _) Eset). apply in_iset_of_list, Hv.
   - intros Hv. apply in_iset_of_list with (dec := var_dec). apply (proj1 (set_eqb_spec var_dec _ _) Eset), Hv.
   - intros v Hv. apply in_iset_of_list with (dec := var_dec). apply (proj1 (subsetb_spec var_dec _ _) Efv), Hv.
-  - apply (proj1 (subsetb_spec pred_dec _ _) Epr).
+  - intros r Hr. assert (Hf := find_none _ _ Epr r Hr). cbn in Hf. apply negb_false_iff in Hf.
+    destruct (memb_spec pred_dec r taken) as [Hin|]; [exact Hin|discriminate].
 Qed.
 
 (* predicates of an accepted definition: the defined one and taken ones *)
